@@ -174,7 +174,7 @@ func runC18(e *core.Env) error {
 		}
 		w.client = jrpc2.New(w.node.URL()).WithMaxReads(1 + rr.Intn(4)).WithPollDuration(2 * time.Millisecond) // caching + live poller
 		nIG := 3 + rr.Intn(2)
-		plans := [][]string{{"block_time"}, {"block_time", "log_addr"}, {"block_time", "tx_input"}, {"block_time", "tx_status"}, {"block_time"}}
+		plans := [][]string{{"block_time"}, {"block_time", "log_addr"}, {}, {"block_time", "tx_status"}, {"block_time", "tx_input"}} // {}: logs only — no header segment cache in front of the partitions
 		var igs []config.Integration
 		for i := 0; i < nIG; i++ {
 			igs = append(igs, transferIG(fmt.Sprintf("ig%d", i+1), fmt.Sprintf("t%d", i+1), plans[i%len(plans)], nil))
